@@ -500,3 +500,69 @@ impl<'a> Gen<'a> {
         else { let c = self.call(env, false); self.guard(c, env) }
     }
 }
+
+// ------------------------------------------------------------------------------------------------
+// merge-stress templates: fan-out / fan-in shapes that make different versions of the particle converge
+
+fn lit(s: &str) -> Val { Val::Lit(s.to_string()) }
+fn callp(peer: &str, func: &str, args: Vec<Val>, out: Out) -> Instr { Instr::Call { peer: lit(peer), svc: lit("svc"), func: lit(func), args, out } }
+
+pub fn template(rng: &mut Rng, peers: &[String]) -> Instr {
+    let n = peers.len();
+    let p = |rng: &mut Rng| peers[rng.below(n)].clone();
+    let mut c = 0usize;
+    let mut f = |k: &str| { c += 1; format!("{k}_{}", c + 100) };
+    match rng.below(6) {
+        0 => {
+            // stream filled by calls on several peers, folded with parallel work per element, then a join
+            let writers = 2 + rng.below(2);
+            let mut fill = callp(&p(rng), &f("str"), vec![], Out::Stream("$s".into()));
+            for _ in 1..writers { let w = callp(&p(rng), &f("num"), vec![], Out::Stream("$s".into())); fill = if rng.chance(1, 2) { par(fill, w) } else { seq(fill, w) }; }
+            let body_work = par(callp(&p(rng), &f("echo"), vec![Val::Scalar("i".into())], if rng.chance(1, 2) { Out::Scalar("x".into()) } else { Out::None }),
+                                callp(&p(rng), &f("echo"), vec![Val::Scalar("i".into())], if rng.chance(1, 2) { Out::Stream("$r".into()) } else { Out::None }));
+            let body = if rng.chance(1, 2) { par(body_work, Instr::Next("i".into())) } else { seq(body_work, Instr::Next("i".into())) };
+            let fold = Instr::FoldStream { stream: "$s".into(), iter: "i".into(), body: Box::new(body), last: None };
+            let tail = callp(&p(rng), &f("str"), vec![], Out::None);
+            seq(fill, if rng.chance(1, 2) { par(fold, tail) } else { seq(par(fold, Instr::Null), tail) })
+        }
+        1 => {
+            // scalar fan-out / fan-in
+            let a = callp(&p(rng), &f("str"), vec![], Out::Scalar("a".into()));
+            let b = callp(&p(rng), &f("obj"), vec![], Out::Scalar("b".into()));
+            let c2 = callp(&p(rng), &f("num"), vec![], Out::Scalar("c".into()));
+            let join = callp(&p(rng), &f("echo"), vec![Val::Scalar("a".into()), Val::Scalar("b".into()), Val::Scalar("c".into())], Out::Scalar("j".into()));
+            let after = par(callp(&p(rng), &f("echo"), vec![Val::Scalar("j".into())], Out::None), callp(&p(rng), &f("echo"), vec![Val::ScalarLens("b".into(), ".$.n".into())], Out::None));
+            seq(par(a, par(b, c2)), seq(join, after))
+        }
+        2 => {
+            // fold over a scalar array of peers, par body, calls on the iterated peer
+            let src = callp(&p(rng), &f("peers"), vec![], Out::Scalar("ps".into()));
+            let body = par(seq(Instr::Call { peer: Val::Scalar("i".into()), svc: lit("svc"), func: lit(&f("str")), args: vec![Val::Scalar("i".into())], out: Out::Stream("$acc".into()) },
+                               callp(&p(rng), &f("echo"), vec![Val::Scalar("i".into())], Out::None)), Instr::Next("i".into()));
+            let fold = Instr::FoldScalar { iterable: Val::Scalar("ps".into()), iter: "i".into(), body: Box::new(body), last: None };
+            let canon = Instr::Canon { peer: lit(&p(rng)), stream: "$acc".into(), canon: "#acc".into() };
+            seq(src, seq(fold, seq(canon, callp(&p(rng), &f("echo"), vec![Val::Canon("#acc".into())], Out::None))))
+        }
+        3 => {
+            // xor with failing service inside par branches
+            let l = xor(callp(&p(rng), &f("fail"), vec![], Out::Scalar("u".into())), callp(&p(rng), &f("echo"), vec![Val::Error(Some(".$.message".into()))], Out::Scalar("e1".into())));
+            let r = xor(seq(callp(&p(rng), &f("str"), vec![], Out::Scalar("w".into())), Instr::Fail(FailArg::Lit(7, "stop".into()))), callp(&p(rng), &f("echo"), vec![Val::LastError(Some(".$.error_code".into()))], Out::Scalar("e2".into())));
+            seq(par(l, r), callp(&p(rng), &f("str"), vec![], Out::None))
+        }
+        4 => {
+            // two streams, nested stream folds, appends in the body to another stream
+            let fill = par(callp(&p(rng), &f("str"), vec![], Out::Stream("$a".into())), seq(callp(&p(rng), &f("str"), vec![], Out::Stream("$a".into())), Instr::Ap { arg: lit("z"), out: Out::Stream("$b".into()) }));
+            let inner = Instr::FoldStream { stream: "$b".into(), iter: "j".into(), body: Box::new(seq(callp(&p(rng), &f("echo"), vec![Val::Scalar("i".into()), Val::Scalar("j".into())], Out::Stream("$c".into())), Instr::Next("j".into()))), last: None };
+            let outer = Instr::FoldStream { stream: "$a".into(), iter: "i".into(), body: Box::new(par(inner, Instr::Next("i".into()))), last: Some(Box::new(callp(&p(rng), &f("str"), vec![], Out::None))) };
+            seq(fill, outer)
+        }
+        _ => {
+            // stream map + canon map + new scope
+            let m = seq(Instr::ApMap { key: lit("k1"), val: lit("v1"), map: "%m".into() }, par(Instr::ApMap { key: Val::Num(2), val: Val::InitPeer, map: "%m".into() },
+                        seq(callp(&p(rng), &f("str"), vec![], Out::Scalar("s".into())), Instr::ApMap { key: lit("k1"), val: Val::Scalar("s".into()), map: "%m".into() })));
+            let canon = Instr::CanonMap { peer: lit(&p(rng)), map: "%m".into(), canon: "#%cm".into() };
+            let use_ = callp(&p(rng), &f("echo"), vec![Val::CanonMap("#%cm".into())], Out::None);
+            Instr::New(NewVar::StreamMap("%m".into()), Box::new(seq(m, seq(canon, use_))))
+        }
+    }
+}
